@@ -209,7 +209,7 @@ func runC09(c c09Case, rec *evid.Rec) (core.Result, error) {
 		if b <= a {
 			continue // this log did not receive bytes from the last operation
 		}
-				var cuts []int
+		var cuts []int
 		near, stride := 16, 1
 		if !core.Thorough() && b-a > 2*near+40 {
 			stride = (b - a - 2*near) / 40 // quick tier: both ends of the range and ~40 offsets in between
